@@ -67,9 +67,11 @@ InSync ==
   /\ rd.ref = RefRow(wr.y)
   /\ wr.y <= H => \A x \in 0..(Max2(rd.pos, 0) - 1) : Px(rd.cur, x) = Px(img[wr.y], x)
 
-\* byte sequence B carries row r in the polarity PDF prescribes (pad bits are not constrained)
+\* byte sequence B carries row r in the polarity PDF prescribes: ceil(W/8) bytes, most significant bit first, and the
+\* pad bits after pixel W-1 are 0 in BOTH polarities (BlackIs1 complements samples, not padding)
 BitOf(B, x) == (B[(x \div 8) + 1] \div (2 ^ (7 - (x % 8)))) % 2
-IsPacked(B, r) == Len(B) = (W + 7) \div 8 /\ \A x \in 0..(W - 1) : BitOf(B, x) = Sample(Px(r, x), blackis1)
+IsPacked(B, r) == /\ Len(B) = (W + 7) \div 8
+                  /\ \A x \in 0..(8 * Len(B) - 1) : BitOf(B, x) = IF x < W THEN Sample(Px(r, x), blackis1) ELSE 0
 RowsSoFar == Len(rd.out) = rd.y /\ \A i \in 1..Len(rd.out) : IsPacked(rd.out[i], img[i])
 RowsRoundTrip == phase = "done" => (Len(rd.out) = H /\ \A i \in 1..H : IsPacked(rd.out[i], img[i]))
 
